@@ -133,9 +133,8 @@ def decodeGeneric (g : Guards) (ty : Bytes) (crit : Bool) (value : Option Node) 
     | .str s => pure (.str ty crit s)
     | _ => fail g.ctrlValue
 
-/-- control.go `decodeControl` -/
-def decodeControl (env : Env) (g : Guards) (n : Node) : Outcome Control := do
-  let (ty, crit, value) ← ctrlHeader g n
+/-- the `switch ControlType` of `decodeControl` -/
+def ctrlDispatch (env : Env) (g : Guards) (ty : Bytes) (crit : Bool) (value : Option Node) : Outcome Control :=
   if ty = ControlTypeManageDsaIT then pure (.manageDsaIT crit)
   else if ty = ControlTypePaging then decodePaging env g value
   else if ty = ControlTypeBeheraPasswordPolicy then decodeBehera env g value
@@ -145,6 +144,11 @@ def decodeControl (env : Env) (g : Guards) (n : Node) : Outcome Control := do
   else if ty = ControlTypeMicrosoftShowDeleted then pure .msShowDeleted
   else if ty = ControlTypeMicrosoftServerLinkTTL then pure .msServerLinkTTL
   else decodeGeneric g ty crit value
+
+/-- control.go `decodeControl` -/
+def decodeControl (env : Env) (g : Guards) (n : Node) : Outcome Control := do
+  let (ty, crit, value) ← ctrlHeader g n
+  ctrlDispatch env g ty crit value
 
 def decodeControls (env : Env) (g : Guards) : List Node → Outcome (List Control)
   | [] => .ok []
